@@ -24,10 +24,16 @@ def strReplace (s : Bytes) (pos n : Nat) (instead : Bytes) : Bytes := s.take pos
 
 /-! ### replace_first / replace_all -/
 
+/-- `std::string::find(needle, pos)` as an option, `none` = `npos`.  (A std::string is shorter
+than `npos`, so `npos` is never a position; `C18.Spec.find` is `(strFind …).getD npos`.) -/
+def strFind (s needle : Bytes) (pos : Nat) : Option Nat :=
+  Spec.least (fun x => decide (pos ≤ x) && Spec.matchAt s needle x) (s.length + 1)
+
 /-- `replace_first(str, needle, instead)` (in-place and copy versions share the code) -/
 def replaceFirst (s needle instead : Bytes) : Bytes :=
-  let firstpos := Spec.find s needle 0
-  if firstpos ≠ npos then strReplace s firstpos needle.length instead else s
+  match strFind s needle 0 with
+  | some firstpos => strReplace s firstpos needle.length instead
+  | none => s
 
 /-- the `while ((thispos = str.find(needle, lastpos)) != npos)` loop; `fuel` bounds the
 iterations (each one consumes at least one byte of the not yet scanned text when the
@@ -35,10 +41,10 @@ needle is not empty) -/
 def replaceAllLoop (needle instead : Bytes) : Nat → Bytes → Nat → Bytes
   | 0, s, _ => s
   | fuel + 1, s, lastpos =>
-    let thispos := Spec.find s needle lastpos
-    if thispos ≠ npos then
+    match strFind s needle lastpos with
+    | some thispos =>
       replaceAllLoop needle instead fuel (strReplace s thispos needle.length instead) (thispos + instead.length)
-    else s
+    | none => s
 
 /-- `replace_all(str, needle, instead)` -/
 def replaceAll (s needle instead : Bytes) : Bytes := replaceAllLoop needle instead (s.length + 1) s 0
